@@ -4,7 +4,7 @@ SPECIFICATION SpecM
 VIEW View
 CHECK_DEADLOCK FALSE
 CONSTANTS TFs = {3,5} TradeTF = 1 Warm = 0 N = 11 MaxFills = 2 Fast = FALSE
-QStale = FALSE QEmptyRead = FALSE QPartialChunk = FALSE QChunkTrading = FALSE Export = FALSE
+QStale = FALSE QEmptyRead = FALSE QPartialChunk = FALSE QChunkTrading = FALSE EpochOffset = 0 QEpochGrid = TRUE Export = FALSE
 INVARIANT NoReadError
 INVARIANT RowsAreAggregations
 INVARIANT CurrentIsAggregation
